@@ -926,3 +926,29 @@ func (b *Batcher) Flush() {
 	b.out = append(b.out, Batch{Items: b.pending})
 	b.pending = b.pending[:0]
 }
+
+// DropNegative violates RX.DR: elements are deleted from the slice the range loop is walking.
+func DropNegative(xs []int) []int {
+	for i, x := range xs {
+		if x < 0 {
+			xs = append(xs[:i], xs[i+1:]...)
+		}
+	}
+	return xs
+}
+
+// sized / newSized / Unsized violate RX.CL: the literal leaves out the field the constructor computes.
+type sized struct {
+	name string
+	size int
+}
+
+func newSized(name string) sized { return sized{name: name, size: measure(name)} }
+
+func measure(s string) int { return len(s) * 2 }
+
+func Unsized(name string) int {
+	a := newSized(name)
+	b := sized{name: name}
+	return a.size + b.size
+}
